@@ -277,3 +277,115 @@ Definition run_syx_write (inp : list Z) : list Z :=
   | [] => bad_input
   end.
 Definition run_syx_read (inp : list Z) : list Z := out_res out_msgs (read_syx inp).
+
+(* ---- components of C07 / C08 / C09 / C17: meta messages and MIDI files ---- *)
+Require Import Mido.Model.Varint Mido.Model.Meta Mido.Model.Smf.
+
+Definition out_meta (x : meta) : list Z :=
+  match x with
+  | MSeqNum n => [0; n]
+  | MText tb t => 1 :: tb :: out_list t
+  | MChanPrefix c => [2; c]
+  | MPort p => [3; p]
+  | MEot => [4]
+  | MTempo t => [5; t]
+  | MSmpte fr h m s f sf => [6; fr; h; m; s; f; sf]
+  | MTimeSig n d c b => [7; n; d; c; b]
+  | MKeySig sf mode => [8; sf; mode]
+  | MSeqSpec d => 9 :: out_list d
+  | MUnknown tb d => 10 :: tb :: out_list d
+  end.
+Definition in_meta (l : list Z) : option (meta * list Z) :=
+  match l with
+  | k :: r =>
+    if k =? 0 then match r with n :: r' => Some (MSeqNum n, r') | _ => None end
+    else if k =? 1 then match r with tb :: r' => match in_list r' with Some (t, r'') => Some (MText tb t, r'') | None => None end | _ => None end
+    else if k =? 2 then match r with c :: r' => Some (MChanPrefix c, r') | _ => None end
+    else if k =? 3 then match r with p :: r' => Some (MPort p, r') | _ => None end
+    else if k =? 4 then Some (MEot, r)
+    else if k =? 5 then match r with t :: r' => Some (MTempo t, r') | _ => None end
+    else if k =? 6 then match r with fr :: h :: m :: s :: f :: sf :: r' => Some (MSmpte fr h m s f sf, r') | _ => None end
+    else if k =? 7 then match r with n :: d :: c :: b :: r' => Some (MTimeSig n d c b, r') | _ => None end
+    else if k =? 8 then match r with sf :: mode :: r' => Some (MKeySig sf mode, r') | _ => None end
+    else if k =? 9 then match in_list r with Some (d, r') => Some (MSeqSpec d, r') | None => None end
+    else if k =? 10 then match r with tb :: r' => match in_list r' with Some (d, r'') => Some (MUnknown tb d, r'') | None => None end | _ => None end
+    else None
+  | [] => None
+  end.
+Definition out_tev (te : tev) : list Z :=
+  (match fst te with TInt z => [0; z] | TFloat tok => [1; tok] end) ++
+  (match snd te with EMsg m => 0 :: out_msg m | EMeta x => 1 :: out_meta x end).
+Definition in_tev (l : list Z) : option (tev * list Z) :=
+  match l with
+  | tk :: tv :: ek :: r =>
+      let t := if tk =? 0 then TInt tv else TFloat tv in
+      if ek =? 0 then match in_msg r with Some (m, r') => Some ((t, EMsg m), r') | None => None end
+      else match in_meta r with Some (x, r') => Some ((t, EMeta x), r') | None => None end
+  | _ => None
+  end.
+Fixpoint in_tevs (n : nat) (l : list Z) : option (list tev * list Z) :=
+  match n with
+  | O => Some ([], l)
+  | S k => match in_tev l with
+           | Some (te, r) => match in_tevs k r with Some (tes, r') => Some (te :: tes, r') | None => None end
+           | None => None
+           end
+  end.
+Fixpoint in_tracks (n : nat) (l : list Z) : option (list (list tev) * list Z) :=
+  match n with
+  | O => Some ([], l)
+  | S k => match l with
+           | c :: r => if c <? 0 then None else
+               match in_tevs (Z.to_nat c) r with
+               | Some (tr, r') => match in_tracks k r' with Some (trs, r'') => Some (tr :: trs, r'') | None => None end
+               | None => None
+               end
+           | [] => None
+           end
+  end.
+Definition in_file (l : list Z) : option (midifile * list Z) :=
+  match l with
+  | ty :: tpb :: n :: r => if n <? 0 then None else
+      match in_tracks (Z.to_nat n) r with
+      | Some (trs, r') => Some ({| f_type := ty; f_tpb := tpb; f_tracks := trs |}, r')
+      | None => None
+      end
+  | _ => None
+  end.
+Definition out_track (tr : list tev) : list Z := zlen tr :: flat_map out_tev tr.
+Definition out_file (f : midifile) : list Z := f_type f :: f_tpb f :: zlen (f_tracks f) :: flat_map out_track (f_tracks f).
+Definition in_codec (z : Z) : codec := if z =? 1 then ascii else latin1.
+
+(* [cs; file] -> bytes of save() *)
+Definition run_save (inp : list Z) : list Z :=
+  match inp with
+  | cs :: r => match in_file r with
+               | Some (f, []) => out_res out_list (save (in_codec cs) f)
+               | _ => bad_input
+               end
+  | [] => bad_input
+  end.
+(* [cs; clip; bytes...] -> the loaded file; every failure to load is one outcome *)
+Definition run_load (inp : list Z) : list Z :=
+  match inp with
+  | cs :: clip :: bs => match load (in_codec cs) (negb (clip =? 0)) bs with Ok f => 0 :: out_file f | Raise _ => [-1; 0] end
+  | _ => bad_input
+  end.
+Definition run_meta_bytes (inp : list Z) : list Z :=
+  match inp with
+  | cs :: r => match in_meta r with
+               | Some (x, []) => out_res out_list (meta_bytes (in_codec cs) x)
+               | _ => bad_input
+               end
+  | [] => bad_input
+  end.
+Definition run_meta_from_bytes (inp : list Z) : list Z :=
+  match inp with
+  | cs :: bs => match meta_from_bytes (in_codec cs) bs with Ok x => 0 :: out_meta x | Raise _ => [-1; 0] end
+  | [] => bad_input
+  end.
+Definition run_varint (inp : list Z) : list Z :=
+  match inp with
+  | [n] => out_res out_list (encode_variable_int n)
+  | _ => bad_input
+  end.
